@@ -371,11 +371,25 @@ pub fn make_module() -> KMap {
         match ctx.instance_and_args(is_list, expected_error)? {
             (KValue::List(l), []) => {
                 let l = l.clone();
-                // Comparing values can call back into script code that accesses the list,
-                // so a copy of the data is sorted while the list isn't borrowed.
-                let mut data = l.data().clone();
-                sort_values(ctx.vm, &mut data)?;
-                *l.data_mut() = data;
+                let mut data = l.data_mut();
+                // Comparing containers, maps and objects can call back into script code that
+                // accesses the list, so in that case a copy of the data is sorted while the list
+                // isn't borrowed. Otherwise the list is sorted in place under a single borrow,
+                // which keeps the operation atomic when the list is shared between threads.
+                let comparisons_may_call_script = data.iter().any(|value| {
+                    !matches!(
+                        value,
+                        KValue::Null | KValue::Bool(_) | KValue::Number(_) | KValue::Str(_)
+                    )
+                });
+                if comparisons_may_call_script {
+                    let mut copy = data.clone();
+                    drop(data);
+                    sort_values(ctx.vm, &mut copy)?;
+                    *l.data_mut() = copy;
+                } else {
+                    sort_values(ctx.vm, &mut data)?;
+                }
                 Ok(KValue::List(l.clone()))
             }
             (KValue::List(l), [f]) if f.is_callable() => {
